@@ -355,6 +355,21 @@ pub fn fuzz_one(bytes: &[u8], rep: &mut Report) {
     check_decode(bytes, rep);
 }
 
+/// Seed inputs for the libFuzzer target `qpack` (encoded field sections, valid and mutated).
+pub fn fuzz_seeds(n: usize, seed: u64) -> Vec<Vec<u8>> {
+    let mut rng = Rng::new(seed ^ 0xC11F);
+    let mut out = Vec::new();
+    for i in 0..n {
+        let k = 1 + rng.usize(6);
+        let fields: Vec<Field> = (0..k).map(|_| rand_field(&mut rng)).collect();
+        let o = EncOpts { use_static_exact: rng.bool(), use_static_name: rng.bool(), huffman: rng.bool(), never_index_bit: rng.bool() };
+        let s = rq::encode_section(&fields, &o);
+        out.push(if i % 3 == 2 { mutate(&s, &mut rng) } else { s });
+    }
+    out.retain(|s| s.len() <= 400);
+    out
+}
+
 fn run_case(gen: &str, index: u64, seed: u64, _tier: Tier, rep: &mut Report) {
     let mut rng = Rng::new(seed);
     match gen {
